@@ -420,6 +420,8 @@ def load(file, **options):
             # new Frame
             frame_id = sh.cell(row_num, index['ID']).value
             frame_name = sh.cell(row_num, index['frameName']).value
+            # the first signal of the frame may have the name of the last signal of the previous frame
+            signal_name = ""
             cycle_time = sh.cell(row_num, index['cycle']).value
             launch_type = sh.cell(row_num, index['launchType']).value
             dlc = 8
